@@ -13,6 +13,10 @@
 //        Configuration::create_schedule on <schedule .../>
 //                                                      -> "INVALID" | "EXC ConfigurationError" |
 //                                                         "<start> <end|E> <duration> <utc> <sd> <ed> <toffset>"
+//   W <the six X fields> <prev0> <t0> <n> <gap>,<gap>,...
+//        the configured path: Configuration(istream).process(), create_session_schedule and
+//        create_login_schedule of a <session schedule=.. login=..>, then polling as in S
+//                                                      -> "INVALID" | "EXC ConfigurationError" | bits
 //   C <t>                                              -> "<ticks> <wday> <secs>"   (clock self test)
 #include "hcommon.hpp"
 #include <time.h>
@@ -61,6 +65,8 @@ static std::string run_decode(std::istringstream& is)
 	return out;
 }
 
+static std::string poll(const Schedule& sch, int prev0, long long t0, unsigned long n, const std::string& gapstr);
+
 static std::string run_sched(std::istringstream& is)
 {
 	std::string start, end, gapstr;
@@ -68,10 +74,15 @@ static std::string run_sched(std::istringstream& is)
 	long long t0;
 	unsigned long n;
 	is >> start >> end >> utc >> sd >> ed >> prev0 >> t0 >> n >> gapstr;
+	const Schedule sch(Tickval(read_ticks(start)), Tickval(read_ticks(end)), Tickval(), utc, sd, ed);
+	return poll(sch, prev0, t0, n, gapstr);
+}
+
+static std::string poll(const Schedule& sch, int prev0, long long t0, unsigned long n, const std::string& gapstr)
+{
 	std::vector<long long> gaps;
 	for (const auto& g : split(gapstr, ','))
 		gaps.push_back(std::stoll(g));
-	const Schedule sch(Tickval(read_ticks(start)), Tickval(read_ticks(end)), Tickval(), utc, sd, ed);
 	std::string out;
 	bool prev(prev0 != 0), cur(false);
 	unsigned long runlen(0);
@@ -129,6 +140,42 @@ static std::string run_xml(std::istringstream& is)
 	return os.str();
 }
 
+static bool same(const Schedule& a, const Schedule& b)
+{
+	return a._start == b._start && a._end == b._end && a._duration == b._duration && a._utc_offset == b._utc_offset
+		&& a._start_day == b._start_day && a._end_day == b._end_day && (!a.is_valid() || a._toffset == b._toffset);
+}
+
+static std::string run_configured(std::istringstream& is)
+{
+	std::string st, en, utc, dur, sd, ed, gapstr;
+	int prev0;
+	long long t0;
+	unsigned long n;
+	is >> st >> en >> utc >> dur >> sd >> ed >> prev0 >> t0 >> n >> gapstr;
+	const std::string attrs(xml_attr("start_time", st) + xml_attr("end_time", en) + xml_attr("utc_offset_mins", utc)
+		+ xml_attr("duration", dur) + xml_attr("start_day", sd) + xml_attr("end_day", ed));
+	const std::string doc("<?xml version='1.0' encoding='ISO-8859-1'?>\n<fix8>\n"
+		"<session name=\"S1\" role=\"acceptor\" fix_version=\"1100\" active=\"true\" ip=\"127.0.0.1\" port=\"11001\" "
+		"sender_comp_id=\"A\" target_comp_id=\"B\" schedule=\"sch\" login=\"lg\" />\n"
+		"<schedule name=\"sch\"" + attrs + " />\n<login name=\"lg\"" + attrs + " />\n</fix8>\n");
+	g_virtual_ns = t0;
+	std::istringstream cs(doc);
+	const Configuration conf(cs, true);
+	const XmlElement *ses(conf.get_session(0));
+	if (!ses)
+		return "NOSESSION";
+	std::unique_ptr<Session_Schedule> ss(conf.create_session_schedule(ses));
+	if (!ss)
+		return "NOSCHEDULE";
+	const Schedule lg(conf.create_login_schedule(ses));
+	if (lg.is_valid() != ss->_sch.is_valid() || !same(lg, ss->_sch))
+		return "LOGIN-DIFFERS";
+	if (!ss->_sch.is_valid())
+		return "INVALID";
+	return poll(ss->_sch, prev0, t0, n, gapstr);
+}
+
 static std::string run_clock(std::istringstream& is)
 {
 	long long t;
@@ -155,6 +202,7 @@ int main()
 			if (kind == "D") res = run_decode(is);
 			else if (kind == "S") res = run_sched(is);
 			else if (kind == "X") res = run_xml(is);
+			else if (kind == "W") res = run_configured(is);
 			else if (kind == "C") res = run_clock(is);
 			else res = "BAD-CASE";
 		}
